@@ -1,0 +1,23 @@
+//go:build verif
+
+package client
+
+// VerifSizes returns the sizes of the per-exchange tables of the connection
+// (verification harness only).
+func (cc *Conn) VerifSizes() map[string]int {
+	out := map[string]int{
+		"token_handlers": cc.tokenHandlerContainer.Length(),
+		"observations":   cc.observationHandler.VerifSize(),
+	}
+	if cc.blockWise != nil {
+		r, s := cc.blockWise.VerifSizes()
+		out["blockwise_receiving"] = r
+		out["blockwise_sending"] = s
+	}
+	n := 0
+	for _, v := range cc.LimitParallelRequests.VerifQueues() {
+		n += int(v[0] + v[1])
+	}
+	out["limiter_entries"] = n
+	return out
+}
